@@ -139,6 +139,9 @@ func RunSnapshots(rep *Report, deadline time.Time, gen func(emit func(Case) bool
 	wg.Wait()
 }
 
+// RunCase executes one snapshot case on w.
+func RunCase(rep *Report, w *world.World, c Case, judge JudgeFn) { runCase(rep, w, c, judge) }
+
 func runCase(rep *Report, w *world.World, c Case, judge JudgeFn) {
 	defer func() {
 		if r := recover(); r != nil {
